@@ -173,3 +173,33 @@ theorem Five_hand_rank_value (a b c d e : Nat) :
   cases handRankValue5 packed [a, b, c, d, e] <;> rfl
 
 end Tie
+
+/-! ## axiom audit (written by tools/tie.py --audit) -/
+#print axioms Tie.Five_first
+#print axioms Tie.Five_second
+#print axioms Tie.Five_third
+#print axioms Tie.Five_forth
+#print axioms Tie.Five_fifth
+#print axioms Tie.consts
+#print axioms Tie.Five_and_bits
+#print axioms Tie.Five_or_bits
+#print axioms Tie.Five_or_rank_bits
+#print axioms Tie.Five_is_flush
+#print axioms Tie.Five_multiply_primes
+#print axioms Tie.c_STRAIGHT_PADDING
+#print axioms Tie.c_WHEEL_OR_BITS
+#print axioms Tie.Five_is_straight
+#print axioms Tie.Five_is_wheel
+#print axioms Tie.Five_is_straight_flush
+#print axioms Tie.find_loop
+#print axioms Tie.Five_find_in_products
+#print axioms Tie.Five_find_in_products_14
+#print axioms Tie.c_NO_HRV
+#print axioms Tie.c_BLANK
+#print axioms Tie.c_POSSIBLE
+#print axioms Tie.c_blank_trunc
+#print axioms Tie.Five_not_unique
+#print axioms Tie.Five_not_unique_14
+#print axioms Tie.Five_unique
+#print axioms Tie.Five_hand_rank_value_and_hand
+#print axioms Tie.Five_hand_rank_value
